@@ -238,6 +238,21 @@ func TestVerifC03(t *testing.T) {
 		e, r, inf = tupleFor(k.P, s, tt)
 		if inf && r.Sign() != 0 && s.Sign() != 0 {
 			add("near:infinity", px, py, ref.B32(e), ref.B32(r), ref.B32(s))
+			// ... and completed with the LIBRARY'S OWN arithmetic: if its double-scalar multiplication does not arrive at
+			// infinity for this (s, t, P) - an exceptional case of its addition handled wrongly - the digest is solved for
+			// the point it does arrive at, so that nothing but the finite-point rule stands against acceptance
+			hk.Try(func() {
+				pt, perr := internal.NewSM2Point().SetBytes(append(append([]byte{4}, px...), py...))
+				if perr != nil {
+					return
+				}
+				res, merr := internal.ScalarMixedMult_Unsafe(ref.B32(s), pt, ref.B32(tt))
+				if merr != nil || res.IsInfinity() == 1 {
+					return
+				}
+				e2 := ref.ModN(new(big.Int).Sub(r, res.GetAffineX_Unsafe()))
+				add("near:infinity:digest-solved-for-what-the-library-computes", px, py, ref.B32(e2), ref.B32(r), ref.B32(s))
+			})
 			// and with e = r + n*? (other representatives of the same residue) when it fits
 			if r.Cmp(new(big.Int).Sub(b256, nI)) < 0 {
 				add("near:infinity-e+n", px, py, ref.B32(new(big.Int).Add(e, nI)), ref.B32(r), ref.B32(s))
